@@ -75,7 +75,7 @@ static int spec_events(size_t k)
 {
   int e = 0;
   for (int j = 0; j < 4; j++) {
-    if (spec_slot(k, j) != -1 && g.poll_rev[4 * k + (size_t) j] > 0) e |= 1 << j;
+    if (spec_slot(k, j) != -1 && g.pl.poll_rev[4 * k + (size_t) j] > 0) e |= 1 << j;
   }
   return e;
 }
@@ -134,10 +134,10 @@ void harness(void)
 #include "gen/post_reproc_poll.inc"
   {
     int best = spec_earliest();
-    bool polled = g.poll_calls == 1;
+    bool polled = g.pl.poll_calls == 1;
     /* C08: an expired deadline is reported at once, without touching the OS */
     if (spec_any_expired(now0)) {
-      V_ASSERT("C08/poll.expired_deadline_reported_at_once", verif_rv == 1 && g.poll_calls == 0);
+      V_ASSERT("C08/poll.expired_deadline_reported_at_once", verif_rv == 1 && g.pl.poll_calls == 0);
       bool found = false;
       for (size_t r = 0; r < VERIF_NSRC; r++) {
         if (r < nsrc && has_dl(r) && dl(r) <= g.now && only_deadline_on(r)) found = true;
@@ -146,30 +146,30 @@ void harness(void)
     }
     /* C09: EPIPE exactly when nothing requested can be polled */
     V_ASSERT("C09/poll.epipe_iff_nothing_to_poll",
-             IMPLIES(verif_rv == -EPIPE, spec_nothing_to_poll() && g.poll_calls == 0) &&
-                 IMPLIES(spec_nothing_to_poll() && !spec_any_expired(g.now) && g.faults == 0, verif_rv == -EPIPE));
-    V_ASSERT("C09/poll.at_most_one_poll", g.poll_calls <= 1);
+             IMPLIES(verif_rv == -EPIPE, spec_nothing_to_poll() && g.pl.poll_calls == 0) &&
+                 IMPLIES(spec_nothing_to_poll() && !spec_any_expired(g.now) && g.e.faults == 0, verif_rv == -EPIPE));
+    V_ASSERT("C09/poll.at_most_one_poll", g.pl.poll_calls <= 1);
     if (polled) {
       /* the kernel is asked about exactly the requested streams */
-      bool slots_ok = g.poll_nfds == 4 * nsrc;
+      bool slots_ok = g.pl.poll_nfds == 4 * nsrc;
       for (size_t k = 0; k < VERIF_NSRC; k++) {
         if (k >= nsrc) continue;
         for (int j = 0; j < 4; j++) {
           size_t i = 4 * k + (size_t) j;
-          if (g.poll_fdv[i] != spec_slot(k, j)) slots_ok = false;
-          if (spec_slot(k, j) != -1 && g.poll_evv[i] != (j == 0 ? POLLOUT : POLLIN)) slots_ok = false;
+          if (g.pl.poll_fdv[i] != spec_slot(k, j)) slots_ok = false;
+          if (spec_slot(k, j) != -1 && g.pl.poll_evv[i] != (j == 0 ? POLLOUT : POLLIN)) slots_ok = false;
         }
       }
       V_ASSERT("C09/poll.kernel_asked_about_exactly_the_requested_streams", slots_ok);
       /* C08: never blocks past the smaller of the timeout and the earliest deadline */
       int want = timeout;
       if (best >= 0) {
-        int64_t left = dl((size_t) best) - g.poll_at;
+        int64_t left = dl((size_t) best) - g.pl.poll_at;
         want = (timeout == -1 || left < timeout) ? (int) left : timeout;
       }
-      V_ASSERT("C08/poll.blocks_at_most_until_timeout_or_earliest_deadline", g.poll_timeout == want);
-      if (g.poll_ret == 0) {
-        if (g.poll_timeout == timeout) {
+      V_ASSERT("C08/poll.blocks_at_most_until_timeout_or_earliest_deadline", g.pl.poll_timeout == want);
+      if (g.pl.poll_ret == 0) {
+        if (g.pl.poll_timeout == timeout) {
           bool none = true;
           for (size_t k = 0; k < VERIF_NSRC; k++) if (k < nsrc && src[k].events != 0) none = false;
           V_ASSERT("C08/poll.timeout_first_returns_zero_without_events", verif_rv == 0 && none);
@@ -183,7 +183,7 @@ void harness(void)
           V_ASSERT("C08/poll.deadline_event_only_on_an_earliest_source", found);
         }
       }
-      if (g.poll_ret > 0) {
+      if (g.pl.poll_ret > 0) {
         bool exact = verif_rv >= 0;
         for (size_t k = 0; k < VERIF_NSRC; k++) {
           if (k < nsrc && src[k].events != spec_events(k)) exact = false;
@@ -193,9 +193,9 @@ void harness(void)
     }
   }
   if (verif_rv == 0) V_CANARY("poll.timeout_reachable");
-  if (verif_rv > 0 && g.poll_calls == 0) V_CANARY("poll.expired_deadline_reachable");
-  if (verif_rv > 0 && g.poll_calls == 1 && g.poll_ret == 0) V_CANARY("poll.deadline_during_poll_reachable");
-  if (verif_rv > 0 && g.poll_ret > 0) V_CANARY("poll.events_reachable");
+  if (verif_rv > 0 && g.pl.poll_calls == 0) V_CANARY("poll.expired_deadline_reachable");
+  if (verif_rv > 0 && g.pl.poll_calls == 1 && g.pl.poll_ret == 0) V_CANARY("poll.deadline_during_poll_reachable");
+  if (verif_rv > 0 && g.pl.poll_ret > 0) V_CANARY("poll.events_reachable");
   if (verif_rv == -EPIPE) V_CANARY("poll.epipe_reachable");
 #endif
   (free)(pa);
